@@ -14,9 +14,12 @@ import contextlib, io, math
 from fractions import Fraction
 import numpy as np
 from .. import common
+from ..translator import py2lean
 from ..common import enc, ask, call
 
 LEVEL = "proof"
+TRUSTED = [py2lean.trusted_note("pnorm")]
+PROP_FILES = ["PersimVerif/Props/C10.lean", py2lean.prop_file("pnorm")]
 RULE = ("landscapes built by the real classes from generated diagrams (1-7 bars; lattice/half/eighth/decimal/uniform "
         "coordinates, whole diagram rescaled by 2^k, k in {-20,-3,0,3,20}; duplicates 15%; diagonal bars in a flagged "
         "sub-stream) as single / negated / difference / P-P / random linear combinations of 2-3 landscapes (exact and "
@@ -376,7 +379,13 @@ def canon(res):
     return fl(v)
 
 
+def pre_build(ctx):
+    """source translator (DESIGN.md 3.2): regenerate Generated/SrcPNorm.lean from PERSIM_ROOT's source"""
+    py2lean.pre_build(ctx, ("pnorm",))
+
+
 def run(ctx):
+    py2lean.report_broken(ctx, PROP_FILES)
     r = ctx.rng
     ex, ap, aux = _mods()
     ctx.extra["source_digest"] = {
@@ -933,3 +942,4 @@ MANIFEST = {
             "because both subclasses discard the value of super().p_norm — modelled as is (pNormMethod).",
     "technique": "Lean 4 theorems (Mathlib interval/Bochner integrals, rpow, Minkowski) over a hand-written model + differential correspondence at Rat/Float + quadrature oracle",
 }
+MANIFEST["note"] += " " + py2lean.manifest_note("pnorm")
